@@ -30,7 +30,10 @@ def gen_stmt(rnd: random.Random, depth: int, callees: list[str]):
 
 def gen_contract(rnd):
     c = rnd.choice(['raises', 'raises', 'has', 'has', 'safe', 'pure', 'pre', 'post'])
-    if c == 'raises': return {'cat': c, 'args': rnd.sample(EXCS, rnd.randint(1, 2)), 'layout': rnd.choice(['one', 'one', 'multi'])}
+    if c == 'raises':
+        args = rnd.sample(EXCS, rnd.randint(1, 2))
+        if rnd.random() < .08: args.append(rnd.choice(['NotImplemented', 'len', 'Ellipsis', 'UnknownError']))      # declared names that are no exception classes
+        return {'cat': c, 'args': args, 'layout': rnd.choice(['one', 'one', 'multi'])}
     if c == 'has': return {'cat': c, 'args': rnd.sample(['stdout', 'stderr', 'io', 'global', 'import', 'read', 'write', 'random', 'time', 'syscall', 'network'], rnd.randint(0, 2)),
                            'layout': rnd.choice(['one', 'one', 'one', 'multi'])}
     if c in ('safe', 'pure'): return {'cat': c, 'args': [], 'layout': rnd.choice(['bare', 'bare', 'call'])}
